@@ -488,6 +488,14 @@ def extract(unit, repo, verus_dir):
             new = rule_R0(orig, log)
             # field attributes #[nom(...)] inside the body
             new = "\n".join(l for l in new.split("\n") if not re.match(r"^\s*#\[nom\(", l))
+            # R3 (second case): a FIELDLESS enum with derived PartialEq (no Eq): the derived `==` compares discriminants,
+            # i.e. it is structural - tell Verus so, otherwise an exec `s == TlsState::None` has no specification
+            if kind == "enum" and "Structural" not in new:
+                bm = re.search(r"\{(.*)\}\s*$", new, re.S)
+                dm = re.search(r"#\[derive\(([^)]*)\)\]", new)
+                if bm and dm and "PartialEq" in dm.group(1) and not re.search(r"[({]", bm.group(1)):
+                    new = new.replace(dm.group(0), "#[derive(%s, Structural)]" % dm.group(1), 1)
+                    log.append("R3 add Structural (fieldless enum with derived PartialEq)")
             for pat, rep in it.get("subst", []):
                 new2, n = re.subn(pat, rep, new)
                 if n == 0:
